@@ -16,7 +16,10 @@ by the [T] float-stress stream of `harness/props/c12.py`, not by these theorems.
 
 Quantifier of the property = hypotheses used below: constructor ranges of positive extent,
 `pixel_size > 0`, assigned ranges of positive extent, fit data with at least one diagram, no empty
-diagram and a positive spread in birth and in persistence (`OpValid`).
+diagram and a positive spread in birth and in persistence (`OpValid`).  Outside it the code (and the
+model, compared by the harness's malformed stream) behaves as follows: `pixel_size = 0`, a reversed
+range and a fit without data raise; a range or data of zero extent is accepted and yields
+resolution 0 on that axis (no pixels), so `1 ≤ rx` is exactly what positivity buys.
 -/
 namespace PersimVerif.C12
 open PersimVerif.Imager PersimVerif.Transformers
@@ -194,6 +197,15 @@ theorem covers_request {s s' : State K} (hs : Inv s) {op : Op K} (hop : OpValid 
     · rw [d5, d6]; exact c3
     · rw [d5, d6, hps]; exact c4
 
+/-- non-vacuity of `covers_request`: on the default state, `birth_range = (0, 373/10)` is a valid
+    operation that the model executes (to the state with 187 pixels, padded by `1/20` on each side) -/
+example :
+    Inv (⟨0, 1, 0, 1, 1/5, 1, 1, 5, 5⟩ : State ℚ) ∧ OpValid (.setBirth (0 : ℚ) (373/10)) ∧
+    step Rat.ceil (⟨0, 1, 0, 1, 1/5, 1, 1, 5, 5⟩ : State Rat) (.setBirth 0 (373/10))
+      = .ok ⟨-1/20, 747/20, 0, 1, 1/5, 187/5, 1, 187, 5⟩ := by
+  refine ⟨⟨?_, ?_, ?_, ?_, ?_, ?_, ?_⟩, ?_, ?_⟩
+  all_goals first | (show (0 : ℚ) < 373/10; norm_num) | decide +kernel
+
 /-- the constructor covers its arguments in the same way -/
 theorem covers_request_ctor {b0 b1 p0 p1 ps : K} (hb : b0 < b1) (hp : p0 < p1) (hps : 0 < ps)
     {s : State K} (h : ctor cl b0 b1 p0 p1 ps = .ok s) :
@@ -268,6 +280,16 @@ theorem shape_is_resolution {s : State K} (hs : Inv s) :
       simp only [imagerTransform, Output.toList, List.mem_map] at hsh
       obtain ⟨d', _, rfl⟩ := hsh
       exact himg _
+
+/-- non-vacuity / executable instance: on the default state every image is 5×5, for a collection
+    with an empty member and for an empty input alike -/
+example :
+    (Output.toList (imagerTransform (fun s _ d => imageShape s d.length) (fun rx ry => some (rx, ry))
+        (⟨0, 1, 0, 1, 1/5, 1, 1, 5, 5⟩ : State Rat) true (.coll [[(0, 1)], [], [(1, 2), (0, 3)]]))
+      = [some (5, 5), some (5, 5), some (5, 5)]) ∧
+    (Output.toList (imagerTransform (fun s _ d => imageShape s d.length) (fun rx ry => some (rx, ry))
+        (⟨0, 1, 0, 1, 1/5, 1, 1, 5, 5⟩ : State Rat) true (.coll [])) = [some (5, 5)]) := by
+  constructor <;> decide +kernel
 
 /-! ## the code before e840b92 -/
 
